@@ -177,7 +177,7 @@ def build(tier, seed):
 
 def eval_case(case, rng):
     quic = rng.random() < 0.35
-    style = rng.choice(scene.TS_STYLES)
+    style = rng.choice(scene.TS_STYLES + (["coarse"] if not quic else []))
     if quic:
         fl = gen.random_quic_flow(rng, napp=rng.choice([3, 8, 15]))
     else:
